@@ -2073,6 +2073,8 @@ impl Connection {
             false,
             false,
         );
+        // Record the packet number so that a duplicate of this datagram is recognized as such
+        self.spaces[SpaceId::Initial].dedup.insert(packet_number);
 
         self.process_decrypted_packet(now, remote, Some(packet_number), packet.into())?;
         if let Some(data) = remaining {
